@@ -384,4 +384,100 @@ func genC19Desc(r *rng, n int) {
 			out.emit(1921, fn(nv), berr(werr), fx(b1))
 		}
 	}
+	genC19CastText(r, sdescInts(r))
+	genC19Pool(r)
+}
+
+// descriptors of the four integer types
+func sdescInts(r *rng) map[thrift.Type]*thrift.TypeDescriptor {
+	root := &Ty{K: thrift.STRUCT, Name: "SI", Fields: []*Fld{
+		{ID: 1, Name: "a", T: &Ty{K: thrift.I08}}, {ID: 2, Name: "b", T: &Ty{K: thrift.I16}},
+		{ID: 3, Name: "c", T: &Ty{K: thrift.I32}}, {ID: 4, Name: "d", T: &Ty{K: thrift.I64}}}}
+	g := newTgen(r.fork())
+	g.structs = []*Ty{root}
+	d, err := parseThrift(g.idl(root), thrift.Options{})
+	if err != nil {
+		die("int IDL: %v", err)
+	}
+	out := map[thrift.Type]*thrift.TypeDescriptor{}
+	for i, t := range []thrift.Type{thrift.I08, thrift.I16, thrift.I32, thrift.I64} {
+		out[t] = d.Struct().FieldById(thrift.FieldID(i + 1)).Type()
+	}
+	return out
+}
+
+// 1922: WriteAnyWithDesc(integer descriptor, decimal TEXT of n as string / []byte, cast=true): fields = type, n, form, err, bytes.
+// Boundary magnitudes: around 2^53 (not representable in a float64), the int64 extremes, the width boundaries.
+func genC19CastText(r *rng, descs map[thrift.Type]*thrift.TypeDescriptor) {
+	var vals []int64
+	for _, k := range []uint{7, 8, 15, 16, 31, 32, 52, 53, 54, 60, 62} {
+		for d := int64(-3); d <= 3; d++ {
+			vals = append(vals, (int64(1)<<k)+d, -(int64(1)<<k)+d)
+		}
+	}
+	vals = append(vals, 0, 1, -1, math.MaxInt64, math.MaxInt64-1, math.MinInt64, math.MinInt64+1, 9007199254740993, -9007199254740993,
+		1234567890123456789, -1234567890123456789)
+	for i := 0; i < 40; i++ {
+		vals = append(vals, int64(r.u64()))
+	}
+	for _, nv := range vals {
+		for _, t := range []thrift.Type{thrift.I08, thrift.I16, thrift.I32, thrift.I64} {
+			if t != thrift.I64 && !r.chance(35) {
+				continue
+			}
+			form := r.intn(2)
+			txt := strconv.FormatInt(nv, 10)
+			var val interface{} = txt
+			if form == 1 {
+				val = []byte(txt)
+			}
+			var werr error
+			var b1 []byte
+			ok, _ := noPanic(func() {
+				p := thrift.NewBinaryProtocolBuffer()
+				werr = p.WriteAnyWithDesc(descs[t], val, true, false, false)
+				b1 = append([]byte(nil), p.Buf...)
+				thrift.FreeBinaryProtocolBuffer(p)
+			})
+			if !ok {
+				out.emit(1922, fi(int(t)), fn(nv), fi(form), "n3", fx(nil))
+			} else {
+				out.emit(1922, fi(int(t)), fn(nv), fi(form), berr(werr), fx(b1))
+			}
+		}
+	}
+}
+
+// pooled protocol objects: a protocol borrowed over caller data (NewBinaryProtocol), read from and recycled, must not
+// leave its read cursor to the next user of the pool. Each round is judged by check 1901 (written bytes, value read back).
+func genC19Pool(r *rng) {
+	for round := 0; round < 64; round++ {
+		data := r.bytes(16 + r.intn(32))
+		bp := thrift.NewBinaryProtocol(data)
+		for k := 0; k < 1+r.intn(3); k++ {
+			bp.ReadI32()
+		}
+		if r.chance(50) {
+			bp.ReadByte()
+		}
+		bp.Recycle()
+		v := int64(r.u64())
+		var w []byte
+		var x int64
+		var e error
+		if r.chance(50) {
+			q := thrift.NewBinaryProtocolBuffer()
+			q.WriteI64(v)
+			w = append([]byte(nil), q.Buf...)
+			x, e = q.ReadI64()
+			thrift.FreeBinaryProtocolBuffer(q)
+		} else {
+			enc := binary.BigEndian.AppendUint64(nil, uint64(v))
+			q := thrift.NewBinaryProtocol(enc)
+			w = enc
+			x, e = q.ReadI64()
+			q.Recycle()
+		}
+		out.emit(1901, fi(int(thrift.I64)), fn(v), fx(w), fn(x), berr(e))
+	}
 }
